@@ -639,9 +639,10 @@ Notation "x <- r ;; k" := (bind r (fun x => k)) (at level 61, r at next level, r
 (* ---- variants ---- *)
 Record cfg := Cfg {
   neg_eq : bool; neg_order : bool; neg_set : bool; neg_like : bool;
-  neg_regex : bool; neg_subset : bool; neg_superset : bool }.
-Definition pinned : cfg := Cfg false false false false false false false.
-Definition repaired : cfg := Cfg true true true true true true true.
+  neg_regex : bool; neg_subset : bool; neg_superset : bool;
+  within_float : bool }.     (* WithinQualifier accepts a FloatConstant *)
+Definition pinned : cfg := Cfg false false false false false false false false.
+Definition repaired : cfg := Cfg true true true true true true true true.
 
 (* ------------------------------------------------------------------ *)
 (** * Constants from tokens (visitTerminal and the constructors it calls) *)
@@ -763,9 +764,9 @@ Definition quote_if_needed (x : ustring) : ustring :=
 Definition pad2 (n : N) : ustring := [48 + n / 10 mod 10; 48 + n mod 10].
 Definition pad4 (n : N) : ustring := [48 + n / 1000 mod 10; 48 + n / 100 mod 10; 48 + n / 10 mod 10; 48 + n mod 10].
 
-(* format_datetime for precision ANY; strftime("%Y") does not pad on this platform *)
+(* format_datetime for precision ANY; the year is "{:04d}".format(year) *)
 Definition print_ts (t : tsval) : ustring :=
-  u "t'" ++ dec_of_N (ts_y t) ++ [45] ++ pad2 (ts_mo t) ++ [45] ++ pad2 (ts_d t) ++ [84] ++
+  u "t'" ++ pad4 (ts_y t) ++ [45] ++ pad2 (ts_mo t) ++ [45] ++ pad2 (ts_d t) ++ [84] ++
   pad2 (ts_h t) ++ [58] ++ pad2 (ts_mi t) ++ [58] ++ pad2 (ts_s t) ++
   (match rstrip0 (ts_us t) with [] => [] | fr => 46 :: fr end) ++ [90; 39].
 
@@ -981,9 +982,10 @@ Fixpoint create_components (l : list vres) : result (list acomp) :=
   | v :: r => c <- create_component v ;; cs <- create_components r ;; Ok (c :: cs)
   end.
 
-Definition mk_qual_int (mk : aconst -> aqual) (v : vres) : result vres :=
+Definition mk_qual_int (mk : aconst -> aqual) (allow_float : bool) (v : vres) : result vres :=
   match v with
   | VConst (CInt z) => Ok (VQual (mk (CInt z)))
+  | VConst (CFloat f) => if allow_float then Ok (VQual (mk (CFloat f))) else Raise ValueError
   | _ => Raise ValueError
   end.
 
@@ -1096,8 +1098,8 @@ Definition m_pt_exists (cs : list vres) : result vres := Ok (VList cs).
 (* visitStartStopQualifier (the 2.0 string check cannot fire: both are TimestampLiterals) *)
 Definition m_startstop (cs : list vres) : result vres :=
   a <- child cs 1 ;; b <- child cs 3 ;; mk_startstop a b.
-Definition m_within (cs : list vres) : result vres := a <- child cs 1 ;; mk_qual_int AQWithin a.
-Definition m_repeat (cs : list vres) : result vres := a <- child cs 1 ;; mk_qual_int AQRepeat a.
+Definition m_within (g : cfg) (cs : list vres) : result vres := a <- child cs 1 ;; mk_qual_int AQWithin (within_float g) a.
+Definition m_repeat (cs : list vres) : result vres := a <- child cs 1 ;; mk_qual_int AQRepeat false a.
 
 (* collapse_lists *)
 Fixpoint collapse_lists (l : list vres) : list vres :=
@@ -1258,10 +1260,10 @@ with v_or (g : cfg) (o : cmpor) : result vres :=
       cs <- visit_children [v_or g l; tokv t_OR; (cs' <- visit_children [v_and g r] ;; m_cmp_or cs')] ;; m_cmp_or cs
   end.
 
-Definition v_qual (q : qual) : result vres :=
+Definition v_qual (g : cfg) (q : qual) : result vres :=
   match q with
   | QStartStop a b => cs <- visit_children [tokv t_START; visit_terminal a; tokv t_STOP; visit_terminal b] ;; m_startstop cs
-  | QWithin n => cs <- visit_children [tokv t_WITHIN; visit_terminal n; tokv t_SECONDS] ;; m_within cs
+  | QWithin n => cs <- visit_children [tokv t_WITHIN; visit_terminal n; tokv t_SECONDS] ;; m_within g cs
   | QRepeat n => cs <- visit_children [tokv t_REPEATS; visit_terminal n; tokv t_TIMES] ;; m_repeat cs
   end.
 
@@ -1269,7 +1271,7 @@ Fixpoint v_obs (g : cfg) (o : obs) : result vres :=
   match o with
   | OSimple e => cs <- visit_children [tokv t_LBRACK; v_or g e; tokv t_RBRACK] ;; m_obs_simple cs
   | OCompound e => cs <- visit_children [tokv t_LPAREN; v_fb g e; tokv t_RPAREN] ;; m_obs_compound cs
-  | OQual o q => cs <- visit_children [v_obs g o; v_qual q] ;; m_obs_qualified cs
+  | OQual o q => cs <- visit_children [v_obs g o; v_qual g q] ;; m_obs_qualified cs
   end
 with v_oand (g : cfg) (a : obsand) : result vres :=
   match a with
@@ -1515,15 +1517,27 @@ Inductive mexpr :=
 
 (* ---- of tokens / parse trees ---- *)
 
+(* read directly off the token text (independent of visitTerminal) *)
+Definition m_ts (s : ustring) : mconst :=
+  match ts_split s with
+  | Some f =>
+      match ts_frac (tf_rest f) with
+      | Some fr => MTs (TsVal (tf_y f) (tf_mo f) (tf_d f) (tf_h f) (tf_mi f) (tf_s f) (rstrip0 fr))
+      | None => MBadConst
+      end
+  | None => MBadConst
+  end.
+
 Definition m_tok (t : token) : mconst :=
-  match visit_terminal t with
-  | Ok (VConst (CString v _)) => MStr (unescape v)
-  | Ok (VConst (CTimestamp x)) => MTs x
-  | Ok (VConst (CInt z)) => MInt z
-  | Ok (VConst (CFloat f)) => MFloat f
-  | Ok (VConst (CBool b)) => MBool b
-  | Ok (VConst (CBinary v)) => MBin v
-  | Ok (VConst (CHex v)) => MHex v
+  match tk t with
+  | KString => MStr (unescape (slice_1_m1 (tx t)))
+  | KTimestamp => match prefixed_body 116 (tx t) with Some b => m_ts b | None => MBadConst end
+  | KIntPos | KIntNeg => match py_int (tx t) with Some z => MInt z | None => MBadConst end
+  | KFloatPos | KFloatNeg => match py_float (tx t) with Some f => MFloat f | None => MBadConst end
+  | KBool => if ustr_eqb (tx t) (u "true") then MBool true
+             else if ustr_eqb (tx t) (u "false") then MBool false else MBadConst
+  | KBinary => match prefixed_body 98 (tx t) with Some b => MBin b | None => MBadConst end
+  | KHex => match prefixed_body 104 (tx t) with Some b => MHex b | None => MBadConst end
   | _ => MBadConst
   end.
 
@@ -1608,7 +1622,7 @@ Definition meaning_cst (p : pattern) : mexpr := one_or (MObsOp OpFb) (mc_fb_list
 Fixpoint ma_const (c : aconst) : mconst :=
   match c with
   | CString v q => MStr (if q then v else unescape v)
-  | CTimestamp t => MTs t
+  | CTimestamp t => MTs (TsVal (ts_y t) (ts_mo t) (ts_d t) (ts_h t) (ts_mi t) (ts_s t) (rstrip0 (ts_us t)))
   | CInt z => MInt z
   | CFloat f => MFloat f
   | CBool b => MBool b
